@@ -287,6 +287,13 @@ class Interp:
         return _jsonable(res)
 
     def _mk_exc(self, spec):
+        e = self._mk_exc0(spec)
+        for k, v in (spec.get("attrs") or {}).items():
+            # third-party exception classes carry arbitrary attributes (an HTTP error with the raw body in .data, ...)
+            setattr(e, k, from_tagged(v))
+        return e
+
+    def _mk_exc0(self, spec):
         cls = spec["cls"]
         msg = spec.get("msg", "boom")
         if spec.get("size"):
